@@ -54,6 +54,42 @@ def local_names(fnode):
     return names
 
 
+def resolve_once(fnode, expr):
+    """a local name bound exactly once in `fnode` (by a plain assignment) stands for the expression it was given:
+    `it = self.xs; for x in it:` iterates self.xs.  Anything else is returned as it is."""
+    seen = 0
+    while isinstance(expr, ast.Name) and seen < 5:
+        seen += 1
+        binds = []
+        for n in _own_nodes(fnode):
+            if isinstance(n, ast.Name) and isinstance(n.ctx, (ast.Store, ast.Del)) and n.id == expr.id:
+                binds.append(n)
+        if len(binds) != 1:
+            return expr
+        val = None
+        for n in _own_nodes(fnode):
+            if isinstance(n, ast.Assign) and len(n.targets) == 1 and n.targets[0] is binds[0]:
+                val = n.value
+        if val is None:
+            return expr
+        expr = val
+    return expr
+
+
+def norm_locals(fnode, node):
+    """normalised text of `node` with the local variables and parameters of the enclosing function `fnode` written as `$`
+    (keys built from it survive a renaming of locals); `self`/`cls` are kept"""
+    loc = local_names(fnode) - set(['self', 'cls'])
+    try:
+        c = ast.parse(norm(node), mode='eval')     # (a fresh tree: the indexed one carries parent links)
+    except SyntaxError:
+        return norm(node)
+    for n in ast.walk(c):
+        if isinstance(n, ast.Name) and n.id in loc:
+            n.id = '$'
+    return norm(c.body)
+
+
 CHA_STOP = frozenset([
     'append', 'extend', 'get', 'pop', 'update', 'items', 'values', 'keys', 'add', 'discard', 'format', 'join', 'split',
     'index', 'insert', 'remove', 'setdefault', 'copy', 'clear', 'lstrip', 'startswith', 'rpartition', 'match', 'group',
@@ -492,7 +528,7 @@ class Escape(object):
                 for kind, node, payload in items:
                     if kind == 'raise':
                         cls = payload
-                        origin = '%s|raise:%s' % (fi.key, norm(node.exc if isinstance(node, ast.Raise) else node.test)[:80])
+                        origin = '%s|raise:%s' % (fi.key, norm_locals(fi.node, node.exc if isinstance(node, ast.Raise) else node.test)[:80])
                         excs = [Exc(cls if cls else '?', origin, node, fi, 'assert' if isinstance(node, ast.Assert) else 'raise')]
                     else:
                         cs = payload
